@@ -1,6 +1,6 @@
 ------------------------------ MODULE Proxy_MC ------------------------------
 EXTENDS Proxy, IOUtils
-AllKinds == {"q", "upd", "ins", "del", "ups", "dup", "ddl", "multi", "prep", "prepq", "updw", "qfu"}
+AllKinds == {"q", "upd", "ins", "del", "ups", "dup", "ddl", "multi", "prep", "prepx", "prepq", "updw", "qfu"}
 \* statements around a failing one (a duplicate-key INSERT that the application handles) inside a transaction
 MidKinds == {"dup", "upd", "ins"}
 EnvMaxSteps == atoi(IOEnv.MAXSTEPS)
